@@ -33,6 +33,24 @@ fn probe(ctx: &mut Ctx, orig: &str, s: &str, blinded: bool, class: &str, positio
         let _ = guard(|| accepted_by(orig, blinded));
         ctx.count("valid-address-parsed-immediately-before-corrupted-one");
     }
+    // ... and sometimes the corrupted text sits in the very buffer the valid one was parsed from
+    // (an input field edited in place): same address, same length, other content
+    if ctx.n_evals() % 64 == 1 && orig.len() == s.len() {
+        let mut buf = String::with_capacity(orig.len());
+        buf.push_str(orig);
+        let first = guard(|| accepted_by(&buf, blinded));
+        buf.clear();
+        buf.push_str(s);
+        match guard(|| accepted_by(&buf, blinded)) {
+            Ok(acc) => {
+                if !acc.is_empty() && first.is_ok() {
+                    ctx.violation(&format!("corruption-accepted/{}/edited-in-place", class), json!({"original": orig, "corrupted": s, "positions": positions, "accepted_by": acc}));
+                }
+            }
+            Err(p) => ctx.panic_violation("address-parse", &p, json!({"string": s})),
+        }
+        ctx.count("corrupted-text-in-the-buffer-of-the-valid-one");
+    }
     match guard(|| accepted_by(s, blinded)) {
         Ok(acc) => {
             if !acc.is_empty() {
